@@ -185,48 +185,23 @@ type c05Fataler interface {
 	Fatalf(string, ...interface{})
 }
 
-// c05Explain: which known findings (if any) explain ALL the violations.
-func c05Explain(w *c05World, b *c05Block, out *c05Out, viols []c05Viol, f *c05Facts) ([]string, string) {
-	if ok, why := w.explainedByNoWritableMount(viols); ok {
-		return []string{c05KnownNoWritable}, why
-	}
-	return w.explainReplication(b, out, viols, f)
-}
-
-// c05Judge runs the oracle on one output; known findings are counted and
-// excused through their narrow classifiers, anything else fails the case.
+// c05Judge runs the oracle on one output; the one known finding is counted and
+// excused through its narrow classifier, anything else fails the case.
 // It returns the labels describing what happened.
-func c05Judge(t c05Fataler, w *c05World, b *c05Block, out *c05Out, path string) (labels []string, f0 *c05Facts) {
-	viols0, f0 := w.oracle(b, out, nil)
-	if len(viols0) == 0 {
-		return nil, f0
+func c05Judge(t c05Fataler, w *c05World, b *c05Block, out *c05Out, path string) (labels []string, f *c05Facts) {
+	viols, f := w.oracle(b, out)
+	if len(viols) == 0 {
+		return nil, f
 	}
-	keys, why := c05Explain(w, b, out, viols0, f0)
-	if keys == nil {
-		// A desired class that no mount offers: judge the output again as if
-		// that class had not been asked for. Nothing else is excused.
-		if u := w.classesWithoutMounts(b); len(u) > 0 {
-			why = fmt.Sprintf("desired class(es) %v offered by no mount", c05SortedKeys(u))
-			viols1, f1 := w.oracle(b, out, u)
-			if len(viols1) == 0 {
-				keys = []string{c05KnownNoClass}
-			} else if k2, w2 := c05Explain(w, b, out, viols1, f1); k2 != nil {
-				keys = append([]string{c05KnownNoClass}, k2...)
-				why += "; " + w2
-			}
+	desc := fmt.Sprintf("violations: %v\nblock: %s\noutput: %s\nlayout: %s", viols, c05JSON(b), c05JSON(out), c05JSON(w.cs.Srvs))
+	if ok, why := w.explainedByStandIn(b, out, viols, f); ok {
+		if stats.Known(c05KnownStandIn, why+"; "+desc) {
+			return []string{"known:" + c05KnownStandIn}, f
 		}
+		t.Fatalf("C05 violated via %s [matches classifier %s: %s]\n%s\nfull case: %s", path, c05KnownStandIn, why, desc, w.cs.JSON())
 	}
-	desc := fmt.Sprintf("violations: %v\nblock: %s\noutput: %s\nlayout: %s", viols0, c05JSON(b), c05JSON(out), c05JSON(w.cs.Srvs))
-	if keys == nil {
-		t.Fatalf("C05 violated via %s\n%s\nfull case: %s", path, desc, w.cs.JSON())
-	}
-	for _, k := range keys {
-		if !stats.Known(k, why+"; "+desc) {
-			t.Fatalf("C05 violated via %s [matches classifier(s) %v: %s]\n%s\nfull case: %s", path, keys, why, desc, w.cs.JSON())
-		}
-		labels = append(labels, "known:"+k)
-	}
-	return labels, f0
+	t.Fatalf("C05 violated via %s\n%s\nfull case: %s", path, desc, w.cs.JSON())
+	return nil, f
 }
 
 func c05JSON(v interface{}) string {
